@@ -84,6 +84,14 @@ impl DependencyGraph {
         loop {
             if let Some(result) = me.wait_results.remove(&from_id) {
                 debug_assert!(!me.edges.contains_key(&from_id));
+                #[cfg(feature = "verif-hooks")]
+                crate::verif::proto(
+                    "dg_wake",
+                    Some(database_key),
+                    None,
+                    [crate::verif::tid(from_id), 0, 0, 0],
+                    result.verif_name(),
+                );
                 return result;
             }
             me = cvar.wait(me);
@@ -115,6 +123,15 @@ impl DependencyGraph {
             .entry(database_key)
             .or_default()
             .push(from_id);
+
+        #[cfg(feature = "verif-hooks")]
+        crate::verif::proto(
+            "dg_block",
+            Some(database_key),
+            None,
+            [crate::verif::tid(from_id), crate::verif::tid(to_id), 0, 0],
+            "",
+        );
     }
 
     /// Invoked when runtime `to_id` completes executing
@@ -124,6 +141,15 @@ impl DependencyGraph {
         database_key: DatabaseKeyIndex,
         wait_result: WaitResult,
     ) {
+        #[cfg(feature = "verif-hooks")]
+        crate::verif::proto(
+            "dg_unblock_key",
+            Some(database_key),
+            None,
+            [0; 4],
+            wait_result.verif_name(),
+        );
+
         let dependents = self
             .query_dependents
             .remove(&database_key)
@@ -140,6 +166,15 @@ impl DependencyGraph {
     fn unblock_runtime(&mut self, id: ThreadId, wait_result: WaitResult) {
         let edge = self.edges.remove(&id).expect("not blocked");
         self.wait_results.insert(id, wait_result);
+
+        #[cfg(feature = "verif-hooks")]
+        crate::verif::proto(
+            "dg_unblock",
+            None,
+            None,
+            [crate::verif::tid(id), 0, 0, 0],
+            wait_result.verif_name(),
+        );
 
         // Now that we have inserted the `wait_results`,
         // notify the thread.
@@ -166,6 +201,15 @@ impl DependencyGraph {
             }
         }
 
+        #[cfg(feature = "verif-hooks")]
+        crate::verif::proto(
+            "dg_unblock_transferred",
+            Some(database_key),
+            None,
+            [0; 4],
+            wait_result.verif_name(),
+        );
+
         // If `database_key` is `c` and it has been transferred to `b` earlier, remove its entry.
         tracing::trace!(
             "unblock_runtimes_blocked_on_transferred_queries_owned_by({database_key:?}"
@@ -184,6 +228,8 @@ impl DependencyGraph {
     }
 
     pub(super) fn undo_transfer_lock(&mut self, database_key: DatabaseKeyIndex) {
+        #[cfg(feature = "verif-hooks")]
+        crate::verif::proto("dg_undo_transfer", Some(database_key), None, [0; 4], "");
         if let Some((_, owner)) = self.transferred.remove(&database_key) {
             self.transferred_dependents
                 .get_mut(&owner)
@@ -335,6 +381,20 @@ impl DependencyGraph {
         let all_dependents = dg.transferred_dependents.entry(new_owner).or_default();
         debug_assert!(!all_dependents.contains(&new_owner));
         all_dependents.push(query);
+
+        #[cfg(feature = "verif-hooks")]
+        crate::verif::proto(
+            "dg_transfer",
+            Some(query),
+            Some(new_owner),
+            [
+                crate::verif::tid(current_thread),
+                crate::verif::tid(new_owner_thread),
+                thread_changed as u64,
+                0,
+            ],
+            "",
+        );
 
         if thread_changed {
             tracing::debug!("Unblocking new owner of transfer target {new_owner:?}");
